@@ -1186,6 +1186,14 @@ func Run(c *ev.Ctx) int {
 	}
 	close(jobs)
 	wg.Wait()
+	for _, cf := range cfgs {
+		wg.Add(1)
+		go func(cf cfgT) {
+			defer wg.Done()
+			gatedLane(c, cf)
+		}(cf)
+	}
+	wg.Wait()
 	return c.Finish("random programs of 10-40 steps over 1-5 concurrent multipart uploads (>= 2 for the same key) per bucket, decided by a reference multipart model; distinct = program shape (configuration, set of step kinds, set of validation rules x outcome, at least one Complete) plus operation classes (complete: variant x model faults x declared size x outcome; part-copy: range class x outcome; part sizes; list variants; finished-id reuse)", 30)
 }
 
